@@ -121,6 +121,10 @@ def make_obj(ex, st, cls, name):
         return Obj("AbstractFilter", {"__id__": fresh(name)})
     if cls == "LocalBioFilter":
         return make_local_filter(ex, st, name)
+    if cls == "Monitor":
+        # the progress monitor: its only field is the start time of the current job (None between jobs)
+        started = ex.c.get("self_config", {}).get("started", False)
+        return Obj("Monitor", {"last_time": Obj("datetime", {"__id__": fresh(name + "_t0")}) if started else NONE})
     raise ValueError(cls)
 
 
